@@ -81,7 +81,12 @@ def run_many(cases, timeout=10.0, procs=None):
                 out += [("skipped", None)] * (len(args) - i)
                 break
             part = pool.map(_run, args[i:i + step], chunksize=8)
-            hangs += sum(1 for o, _ in part if str(o).startswith("hang"))
+            # a stalled worker is not a hanging input: believe it only after a second, generous try here
+            for k, (o, m) in enumerate(part):
+                if str(o).startswith("hang") and hangs < 24:
+                    o2 = _run((args[i + k][0], args[i + k][1], 30.0))
+                    part[k] = o2
+                    hangs += str(o2[0]).startswith("hang")
             out += part
     return out
 
